@@ -35,6 +35,10 @@ def exN : ConnSet :=
 def exH : ConnSet :=
   (ConnSet.mk' false).addConnection .UDP ((PortSet.mk' false).addPort (.name "http"))
 
+/-- `UDP 53` -/
+def exU : ConnSet :=
+  (ConnSet.mk' false).addConnection .UDP ((PortSet.mk' false).addPort (.num 53))
+
 /-- all three protocols with the full range, added one by one -/
 def exFull : ConnSet :=
   (((ConnSet.mk' false).addConnection .TCP (PortSet.mk' true)).addConnection
@@ -74,10 +78,11 @@ example : ¬ ((PortSet.mk' false).addPort (.num 70000)).WF := by decide
 
 theorem wf_mk (b : Bool) : (ConnSet.mk' b).WF := ConnSet.wf_mk b
 
-/-- the hypothesis `ha` is needed: `AddConnection` on the AllowAll form stores the entry next to
-the AllowAll flag (as the Go code does), which is outside `WF`; see the example below -/
-theorem wf_addConnection (hc : c.WF) (hp : ps.WF) (ha : c.allowAll = true → ps.isEmpty = true) :
-    (c.addConnection pr ps).WF := ConnSet.wf_addConnection pr hc hp ha
+/-- no side condition on the receiver since the repair of `AddConnection` (a no-op on the
+AllowAll form; before, the entry was stored next to the AllowAll flag, outside `WF`, and the
+statement carried the hypothesis `c.allowAll = true → ps.isEmpty = true`) -/
+theorem wf_addConnection (hc : c.WF) (hp : ps.WF) :
+    (c.addConnection pr ps).WF := ConnSet.wf_addConnection pr hc hp
 
 theorem wf_union (hc : c.WF) (hd : d.WF) : (c.union d).WF := ConnSet.wf_union hc hd
 
@@ -90,7 +95,8 @@ theorem wf_copy (hc : c.WF) : c.copy.WF := ConnSet.wf_copy hc
 example : exA.WF ∧ exB.WF ∧ exN.WF ∧ exFull.WF := by decide
 example : (exA.union exB).WF ∧ (exA.inter exB).WF ∧ (exA.subtract exB).WF := by decide
 example : ((ConnSet.mk' true).subtract exA).WF := by decide
-example : ¬ ((ConnSet.mk' true).addConnection .TCP ((PortSet.mk' false).addPortRange 80 90)).WF := by
+/-- the case that was excluded before the repair -/
+example : ((ConnSet.mk' true).addConnection .TCP ((PortSet.mk' false).addPortRange 80 90)).WF := by
   decide
 
 /-! ### B. denotation of the operations -/
@@ -101,10 +107,36 @@ theorem den_mk_all (pr : Proto) (x : Int) : (ConnSet.mk' true).den pr x ↔ inRa
 theorem den_mk_none (pr : Proto) (x : Int) : ¬ (ConnSet.mk' false).den pr x :=
   ConnSet.den_mk_none pr x
 
-/-- no well-formedness hypothesis is needed -/
-theorem den_addConnection (c : ConnSet) (pr : Proto) (ps : PortSet) (pr' : Proto) (x : Int) :
+/-- exact denotation of `AddConnection`, no hypothesis at all: nothing is added to the AllowAll
+form -/
+theorem den_addConnection_exact (c : ConnSet) (pr : Proto) (ps : PortSet) (pr' : Proto) (x : Int) :
+    (c.addConnection pr ps).den pr' x ↔
+      c.den pr' x ∨ (c.allowAll = false ∧ pr' = pr ∧ CSet.memL ps.ports x) :=
+  ConnSet.den_addConnection_exact c pr ps pr' x
+
+/-- no hypothesis on the receiver. `hp` is used on the AllowAll form only: the receiver is
+returned unchanged, so an added port outside 1..65535 is not in the result (before the repair it
+was, in the stray entry, and the statement had no hypothesis); see the example below -/
+theorem den_addConnection (c : ConnSet) (pr : Proto) (hp : ps.WF) (pr' : Proto) (x : Int) :
     (c.addConnection pr ps).den pr' x ↔ c.den pr' x ∨ (pr' = pr ∧ CSet.memL ps.ports x) :=
-  ConnSet.den_addConnection c pr ps pr' x
+  ConnSet.den_addConnection c pr hp pr' x
+
+/-- `AddConnection` on All Connections is a no-op (the repaired behaviour) -/
+theorem addConnection_of_allowAll (h : c.allowAll = true) (pr : Proto) (ps : PortSet) :
+    c.addConnection pr ps = c := ConnSet.addConnection_of_allowAll h pr ps
+
+theorem addConnection_all (pr : Proto) (ps : PortSet) :
+    (ConnSet.mk' true).addConnection pr ps = ConnSet.mk' true := ConnSet.addConnection_mk_all pr ps
+
+/-- on the other sets it is the Go `addConnection` followed by `checkIfAllConnections` -/
+theorem addConnection_of_not_allowAll (h : c.allowAll = false) (pr : Proto) (ps : PortSet) :
+    c.addConnection pr ps = (c.addConnectionRaw pr ps).checkIfAll :=
+  ConnSet.addConnection_of_not_allowAll h pr ps
+
+/-- why `den_addConnection` needs `hp`: an out-of-range port added to All Connections -/
+example : ¬ ((ConnSet.mk' true).addConnection .TCP
+      ((PortSet.mk' false).addPort (.num 70000))).den .TCP 70000 ∧
+    CSet.memL ((PortSet.mk' false).addPort (.num 70000)).ports 70000 := by decide
 
 theorem den_union (hc : c.WF) (hd : d.WF) (pr : Proto) (x : Int) :
     (c.union d).den pr x ↔ c.den pr x ∨ d.den pr x := ConnSet.den_union hc hd pr x
@@ -128,6 +160,22 @@ example : ((ConnSet.mk' true).subtract exA).den .TCP 79 ∧
     ¬ ((ConnSet.mk' true).subtract exA).den .TCP 80 ∧
     ((ConnSet.mk' true).subtract exA).den .SCTP 65535 ∧
     ¬ ((ConnSet.mk' true).subtract exA).den .SCTP 65536 := by decide
+
+/-- the audit's sequence replayed: `All`, then `AddConnection(TCP 80)`, then `Intersection` with
+`UDP 53`. Before the repair the first step left the entry `TCP 80` next to the AllowAll flag
+(`Equal` with All false) and the intersection picked it up: "TCP 80,UDP 53" instead of "UDP 53". -/
+example : (ConnSet.mk' true).addConnection .TCP ((PortSet.mk' false).addPort (.num 80)) =
+    ConnSet.mk' true := by decide
+example : ((ConnSet.mk' true).addConnection .TCP ((PortSet.mk' false).addPort (.num 80))).equal
+    (ConnSet.mk' true) = true := by decide
+example : ((ConnSet.mk' true).addConnection .TCP ((PortSet.mk' false).addPort (.num 80))).inter exU =
+    exU ∧ exU = ⟨false, none, some ⟨[⟨53, 53⟩], [], []⟩, none⟩ := by decide
+example : (((ConnSet.mk' true).addConnection .TCP ((PortSet.mk' false).addPort (.num 80))).inter
+    exU).toStr = "UDP 53" := by decide
+/-- what the unrepaired `AddConnection` (`addConnectionRaw` then `checkIfAll`) did on this input -/
+example : (((ConnSet.mk' true).addConnectionRaw .TCP
+      ((PortSet.mk' false).addPort (.num 80))).checkIfAll.inter exU) =
+    ⟨false, some ⟨[⟨80, 80⟩], [], []⟩, some ⟨[⟨53, 53⟩], [], []⟩, none⟩ := by decide
 
 /-! ### C. predicates -/
 
@@ -201,9 +249,9 @@ example : "http" ∈ exN.names .TCP ∧ "http" ∉ exA.names .TCP ∧ exN.contai
 
 theorem canonical_mk (b : Bool) : (ConnSet.mk' b).Canonical := ConnSet.canonical_mk b
 
-theorem canonical_addConnection (hc : c.WF) (hp : ps.WF)
-    (ha : c.allowAll = true → ps.isEmpty = true) : (c.addConnection pr ps).Canonical :=
-  ConnSet.canonical_addConnection pr hc hp ha
+/-- no side condition on the receiver since the repair of `AddConnection` -/
+theorem canonical_addConnection (hc : c.WF) (hp : ps.WF) : (c.addConnection pr ps).Canonical :=
+  ConnSet.canonical_addConnection pr hc hp
 
 /-- `Union` returns its receiver unchanged when the argument is empty, hence `Canonical c` -/
 theorem canonical_union (hc : c.Canonical) (hd : d.WF) : (c.union d).Canonical :=
@@ -269,11 +317,10 @@ theorem union_eq_all_of_full_of_nonempty (hc : c.WF) (hd : d.WF) (hne : d.isEmpt
 
 /-- `AddConnection`, the same -/
 theorem addConnection_eq_all_of_full (hc : c.WF) (hp : ps.WF)
-    (ha : c.allowAll = true → ps.isEmpty = true)
     (he : ∀ pr' qs, (c.addConnection pr ps).get pr' = some qs → qs.excluded = [])
     (h : ∀ pr' x, inRange x → c.den pr' x ∨ (pr' = pr ∧ CSet.memL ps.ports x)) :
     c.addConnection pr ps = ConnSet.mk' true :=
-  ConnSet.addConnection_eq_all_of_full pr hc hp ha he h
+  ConnSet.addConnection_eq_all_of_full pr hc hp he h
 
 /-- the defect replayed: `(All − {UDP http}) ∪ {UDP http}`. Before the repair the result was
 `⟨false, full, ⟨full, ["http"], []⟩, full⟩`, printed "SCTP 1-65535,TCP 1-65535,UDP 1-65535,http"
